@@ -31,7 +31,10 @@ DEVIATIONS = {
     'ignored_varkw_null_marker': ('C11', dict(SigIds={25}, IgnIds={8}, KwNames={'z'}, PVals={1}, MAXP=1, MAXK=1)),
     'starstar_pops_kwonly': ('C11', dict(SigIds={34}, IgnIds={6}, KwNames={'k'}, PVals={1, 2}, MAXP=1, MAXK=1)),
     'stringmap_bare_str': ('C10', dict(SigIds={4}, IgnIds={0}, KwNames={'z'}, PVals={1, 7}, MAXP=1, MAXK=0)),
+    'posonly_keyword_shadowed': ('C10', dict(SigIds={73, 77, 122}, IgnIds={0}, KwNames={'x', 'z'}, PVals={1, 2}, MAXP=2, MAXK=1)),
 }
+# signatures with positional-only parameters (ids 48..143, see KeyImpl.Sig) that every run includes
+PO_SIGS = {49, 50, 98, 73, 77, 122}
 
 
 def all_kms():
@@ -83,7 +86,7 @@ def tlc_catalogue(consts, work):
 def base_consts(tier, igns, sigs=None, pvals=None):
     thorough = tier == 'thorough'
     if sigs is None:
-        sigs = set(range(48)) if thorough else {1, 2, 3, 4, 5, 6, 14, 18, 22, 26, 30, 34, 42, 47}
+        sigs = set(range(144)) if thorough else {1, 2, 3, 4, 5, 6, 14, 18, 22, 26, 30, 34, 42, 47} | PO_SIGS
     if pvals is None:
         pvals = {1, 2, 3, 4, 5, 7} if thorough else {1, 2}
     return dict(SigIds=set(sigs), PVals=set(pvals), MAXP=2, MAXK=2,
@@ -151,7 +154,10 @@ def signature(t, v, pid):
     ign = t['ign']
     varkw_only = bool(ign['names']) and all(n not in params for n in ign['names']) and not ign['idx'] \
         and not ign['star'] and not ign['dstar']
+    ponames = {p['n'] for p in t['sig']['pos'] if p.get('po')}
     return {'engine': 'key', 'clauses': v[1], 'varkw_only_ignore': varkw_only, 'enc': t['km']['enc'], 'flat': t['km']['flat'],
+            # some call of this group passes an extra keyword that has the name of a positional-only parameter
+            'posonly_keyword': bool(ponames) and any(it['n'] in ponames for x in t['events'][:v[0]] for it in x['call']['k']),
             'mode': t['meta']['mode'], 'ignore': t['meta']['ignore'], 'callable': t['meta'].get('kind', 'plain'),
             'bare_ignore': bool(t['meta'].get('bare')),
             # the whole key is one bare positional value (variadic-only signature, one positional, no keyword)
